@@ -15,6 +15,10 @@ type Key interface {
 // keys starts to be iterated at site ("file.go:line"); nil result = ascending order.
 var Order func(site string, n int) []int
 
+// OrderKeys is like Order but also sees the (sorted) keys of string-keyed maps; it takes
+// precedence over Order for those.
+var OrderKeys func(site string, keys []string) []int
+
 // Seen, when non-nil, records how many iterations started per site (single-threaded use).
 var Seen map[string]int
 
@@ -39,8 +43,16 @@ func Iter[K Key, V any](m map[K]V, site string) *It[K, V] {
 	if Seen != nil {
 		Seen[site]++
 	}
-	if Order != nil && len(keys) >= 2 {
-		if perm := Order(site, len(keys)); perm != nil {
+	var perm []int
+	if len(keys) >= 2 {
+		if ks, ok := any(keys).([]string); ok && OrderKeys != nil {
+			perm = OrderKeys(site, ks)
+		} else if Order != nil {
+			perm = Order(site, len(keys))
+		}
+	}
+	if perm != nil {
+		{
 			if len(perm) != len(keys) {
 				panic("vseam: bad permutation length")
 			}
